@@ -4,7 +4,7 @@ TRUSTED_BASE = [
     "Lean 4.33.0 kernel (lake build; thorough tier re-checks the module with leanchecker)",
     "axioms admitted in property theorems: propext, Classical.choice, Quot.sound only (audited by #print axioms on every run); no sorry/admit/native_decide/bv_decide/user axioms (source grep on every run)",
     "hand-written Lean models; tied to /repo by the correspondence engines below on every run (generators + canonicalisers are trusted)",
-    "tools/gen_lean_tables.py: translator of tables in the Go source (unicodeBestFitASCII) into Lean definitions, re-run before every build",
+    "tools/gen_lean_tables.py: translator of tables in the Go source (unicodeBestFitASCII, variables and their selectability, caseSensitiveVariable, action types, transformation registry, base64DecMap) into Lean definitions, re-run before every build; the models' own tables are proved equal to them",
     "Lean compiler for the driver executable (runs the same definitions the theorems are about)",
     "Go toolchain and runtime",
 ]
